@@ -45,7 +45,10 @@ const (
 	AlgECDSA = "ECDSA"
 )
 
-var ErrNoSuchKey = errors.New("no such key")
+var (
+	ErrNoSuchKey = errors.New("no such key")
+	ErrNoKeys    = errors.New("no keys present")
+)
 
 type KeyStore interface {
 	GetKey(id string) (*Entry, error)
@@ -66,6 +69,22 @@ func (ks keyStore) GetKey(id string) (*Entry, error) {
 
 func (ks keyStore) Entries() []*Entry {
 	return ks
+}
+
+// SelectKey returns the entry with the given id, or the first entry if no id is given. A key store read from a
+// file which is empty, half-written or holds certificates only has no entries; that is an error, not a reason to
+// panic.
+func SelectKey(ks KeyStore, id string) (*Entry, error) {
+	if len(id) != 0 {
+		return ks.GetKey(id)
+	}
+
+	entries := ks.Entries()
+	if len(entries) == 0 {
+		return nil, ErrNoKeys
+	}
+
+	return entries[0], nil
 }
 
 func NewKeyStoreFromKey(privateKey crypto.Signer) (KeyStore, error) {
